@@ -13,6 +13,8 @@
 #include <stdbool.h>
 #include <float.h>
 #include <time.h>
+#include <unistd.h>
+#include <sys/resource.h>
 
 #include <cmr/env.h>
 #include <cmr/matrix.h>
@@ -517,8 +519,20 @@ int main(int argc, char** argv)
     fprintf(stderr, "drive: unknown api %s\n", argv[1]);
     return 2;
   }
+  /* per-case watchdog: a case that runs longer than DRIVE_CASE_SECONDS (default 20) or needs more than
+   * DRIVE_MEM_MB (default 2048, non-sanitized builds only) kills the process; the caller records it as "no result". */
+  unsigned caseSeconds = getenv("DRIVE_CASE_SECONDS") ? atoi(getenv("DRIVE_CASE_SECONDS")) : 20;
+#if !defined(__SANITIZE_ADDRESS__)
+  {
+    struct rlimit rl;
+    size_t mb = getenv("DRIVE_MEM_MB") ? atol(getenv("DRIVE_MEM_MB")) : 2048;
+    rl.rlim_cur = rl.rlim_max = mb << 20;
+    setrlimit(RLIMIT_AS, &rl);
+  }
+#endif
   while (read_case(stdin))
   {
+    alarm(caseSeconds);
     CMR* cmr = NULL;
     die_on(CMRcreateEnvironment(&cmr), "CMRcreateEnvironment");
     fn(cmr);
